@@ -2588,6 +2588,7 @@ def const_attr_text(tree, objtree, cls, attr, objcls, consts):
 
 def main():
     src, out = sys.argv[1], sys.argv[2]
+    sys.path.insert(0, os.path.dirname(os.path.abspath(__file__)))
     os.makedirs(out, exist_ok=True)
     status = {}
     trees = {m: ast.parse(open(os.path.join(src, m + ".py")).read())
@@ -3059,6 +3060,22 @@ def main():
     for h in helpers:
         if h.error is not None:
             status[h.key] = f"unsupported: {h.error}"
+
+    # ---------------- GProv.v: the one fact about the code that Model/Prov.v is parameterised by (C17), inferred from
+    # the source by the tag analysis of provtags.py (fails closed: anything it does not understand counts as a view)
+    try:
+        import provtags
+        flag, report = provtags.literal_copies(trees["hpack"], trees["huffman_table"])
+        status["hpack.Decoder.<provenance of stored and returned literals>"] = \
+            "translated" if flag else "unsupported: a literal is stored or returned without a copy: " + "; ".join(report)
+    except Exception as e:  # noqa: BLE001
+        flag, report = False, ["tag analysis crashed: %r" % (e,)]
+        status["hpack.Decoder.<provenance of stored and returned literals>"] = "unsupported: " + report[0]
+    write_if_changed(os.path.join(out, "GProv.v"),
+                     "(* GENERATED by tools/py2coq (provtags.py) from /repo/src/hpack/hpack.py -- do not edit *)\n"
+                     "(* does Decoder._decode_literal copy the literals out of the caller's buffer before storing / returning them?\n"
+                     + "".join("   %s\n" % r.replace("*)", "* )") for r in report) + "*)\n"
+                     f"Definition literal_copies : bool := {'true' if flag else 'false'}.\n")
 
     # the handler types that were translated as exact-constructor `catch`
     write_if_changed(os.path.join(out, "GExnUse.v"),
